@@ -48,6 +48,14 @@ pub fn run_spec(prop: Prop, spec: &RunSpec, want_transcript: bool) -> RunOutcome
             ElemClass::Zst => crate::c10::run_c10::<(), ()>(spec, crate::THOROUGH.load(std::sync::atomic::Ordering::Relaxed)),
         };
     }
+    if matches!(spec.mode.as_deref(), Some("enum-chains") | Some("enum-prefixes")) {
+        let th = crate::THOROUGH.load(std::sync::atomic::Ordering::Relaxed);
+        return match spec.cfg.elem {
+            ElemClass::Plain => crate::variants::run_variants::<u32, PVal>(prop, spec, th),
+            ElemClass::Tracked => crate::variants::run_variants::<TKey, TVal>(prop, spec, th),
+            ElemClass::Zst => crate::variants::run_variants::<(), ()>(prop, spec, th),
+        };
+    }
     match spec.cfg.elem {
         ElemClass::Plain => run_generic::<u32, PVal>(prop, spec, want_transcript),
         ElemClass::Tracked => run_generic::<TKey, TVal>(prop, spec, want_transcript),
